@@ -9,8 +9,23 @@ use std::sync::atomic::{AtomicUsize, Ordering};
 /// 1 = "adv2": argsort keeps the first of a group of equal keys in front and lists the others in
 ///     decreasing position, component numbering reversed, sparse_bincount and scatter as on Vec.
 pub static MODE: AtomicUsize = AtomicUsize::new(0);
+/// 2 = "adv3": a conforming back-end that is NOT a function of its arguments — every call of one of the four open
+///     operations resolves its choice according to a call counter (a parallel implementation may well behave so).
+pub static CALLS: AtomicUsize = AtomicUsize::new(0);
 fn mode() -> usize {
-    MODE.load(Ordering::Relaxed)
+    let m = MODE.load(Ordering::Relaxed);
+    if m == 2 {
+        // alternate between the two deterministic adversarial behaviours from call to call
+        return CALLS.fetch_add(1, Ordering::Relaxed) % 2;
+    }
+    m
+}
+fn stateful() -> Option<usize> {
+    if MODE.load(Ordering::Relaxed) == 2 {
+        Some(CALLS.fetch_add(1, Ordering::Relaxed))
+    } else {
+        None
+    }
 }
 
 #[derive(PartialEq, Eq, Clone, Debug)]
@@ -263,6 +278,10 @@ impl NaturalArray<AdvKind> for AdvArray<usize> {
     ) -> (Self, <AdvKind as ArrayKind>::I) {
         // reversed component numbering
         let (cc_ix, c) = connected_components(sources, targets, n);
+        if let Some(k) = stateful() {
+            // a different (rotated) numbering on every call
+            return (AdvArray(cc_ix.into_iter().map(|x| (x + k) % c.max(1)).collect()), c);
+        }
         (AdvArray(cc_ix.into_iter().map(|x| c - 1 - x).collect()), c)
     }
 
